@@ -1,7 +1,7 @@
 (* C13 - a bytecode file read and written back is the same program for its Python: header and payload. *)
 From Xdis Require Import Base.Prelude Base.Result Base.LE Model.Magic Model.Load Model.WriteHeader Gen.Magics Gen.RefMagics
   Spec.Registry Spec.Header Proofs.HeaderDefs Proofs.HeaderProofs Proofs.WriteProofs
-  Model.Unmarshal Model.UnmarshalObs Model.Marsh Gen.Dispatch Proofs.C10Tables Proofs.MarshRoundTrip Proofs.C14Tables.
+  Model.Unmarshal Model.UnmarshalObs Model.Marsh Gen.Dispatch Proofs.C10Tables Proofs.MarshRoundTrip Proofs.Marsh2RoundTrip Proofs.C14Tables.
 
 (* Header: for the magic of every final release (and the PyPy corpus magics) whose 4 magic bytes
    the writer reproduces, every 32-bit timestamp and size and every payload: what
@@ -67,4 +67,58 @@ Proof.
   unfold code_wfv. rewrite Hp. unfold ex_code38.
   repeat (first [apply wf_code | apply wf_tuple | apply wf_bin | apply wf_text | apply wf_none | apply wf_int | apply Forall_cons | apply Forall_nil | split]);
     try reflexivity; try (unfold in32; lia); try (unfold small_len; vm_compute; reflexivity); try (vm_compute; reflexivity).
+Qed.
+
+(* Python 2 targets.  For a version below 3.0, what write_bytecode_file puts after the header is _Marshaller.dump with the Python 2
+   rules (a Python 2 str as 's', unicode as 'u' with its payload, int as 'i' or 64-bit 'I', long as 'l') and dump_code2 for code objects
+   (integer fields 32 bits wide from 2.3, 16 bits before; names, varnames, filename, name, code and lnotab as strings).  For the magic of
+   EVERY Python 2.0-2.7 version in xdis's table and EVERY well-formed Python 2 code-object tree whose kinds that version's marshal knows
+   (wfv2: its type codes exist for the reader, integer fields fit the field width), CPython's own reader of that version loads the written
+   bytes to the same tree - kinds included - and stops at their end ... *)
+Definition code_wfv2 (c : cfg) : pv -> Prop := wfv2 (vge c [2; 3]) c.
+
+Theorem C13_payload2_cpython_loads : forall m (repr_float : Z -> list Z) v, In m all_magics -> py2_magic m = true ->
+  code_wfv2 (cpy_cfg m) v ->
+  load (cpy_cfg m) (dumps2 repr_float (vge (cpy_cfg m) [2; 3]) v) = Ok (textify repr_float v, {| inp := []; refs := []; strs := [] |}).
+Proof.
+  intros m repr_float v Hin H2 Hw.
+  pose proof (proj1 (forallb_forall _ _) cpy2_all m Hin) as H. cbv beta in H. rewrite H2 in H. cbn [negb orb] in H.
+  destruct (cfg2_facts _ H) as (H30 & H311 & H38 & H13 & H20 & H15).
+  exact (loads_dumps2 repr_float (vge (cpy_cfg m) [2; 3]) (cpy_cfg m) H30 H311 H38 eq_refl H13 H20 H15 v Hw).
+Qed.
+
+(* ... and so does xdis's own unmarshaller when it re-reads the file it wrote *)
+Theorem C13_payload2_xdis_rereads : forall m (repr_float : Z -> list Z) v, In m all_magics -> py2_magic m = true ->
+  code_wfv2 (xdis_cfg m) v ->
+  load (xdis_cfg m) (dumps2 repr_float (vge (xdis_cfg m) [2; 3]) v) = Ok (textify repr_float v, {| inp := []; refs := []; strs := [] |}).
+Proof.
+  intros m repr_float v Hin H2 Hw.
+  pose proof (proj1 (forallb_forall _ _) xdis2_all m Hin) as H. cbv beta in H. rewrite H2 in H. cbn [negb orb] in H.
+  destruct (cfg2_facts _ H) as (H30 & H311 & H38 & H13 & H20 & H15).
+  exact (loads_dumps2 repr_float (vge (xdis_cfg m) [2; 3]) (xdis_cfg m) H30 H311 H38 eq_refl H13 H20 H15 v Hw).
+Qed.
+
+(* a 2.7 module (32-bit fields: int, 64-bit int, long, str with non-ASCII bytes, unicode) and a 2.2 one (16-bit fields) *)
+Definition ex_code27 : pv :=
+  PCode [0; -1; 0; 0; 1; 64; 1]
+        [PBin [100; 0; 0; 83]; PTuple [PNone; PInt 7; PInt 4294967296; PLong 5; PBin [195; 169]; PText [195; 169]];
+         PTuple [PBin [120]]; PTuple []; PTuple []; PTuple []; PBin [99; 97; 102; 195; 169; 46; 112; 121]; PBin [60; 109; 62]; PNone; PBin [6; 1]; PNone].
+Definition ex_code22 : pv :=
+  PCode [1; -1; 0; 1; 2; 67; 300]
+        [PBin [100; 0; 0; 83]; PTuple [PNone; PInt (-5)]; PTuple []; PTuple [PBin [97]]; PTuple []; PTuple []; PBin [102; 46; 112; 121]; PBin [102]; PNone; PBin []; PNone].
+
+Example C13_payload2_nonvacuous :
+  existsb (Z.eqb 62211) all_magics = true /\ py2_magic 62211 = true /\ vge (cpy_cfg 62211) [2; 3] = true
+  /\ load (cpy_cfg 62211) (dumps2 (fun _ => []) true ex_code27) = Ok (ex_code27, {| inp := []; refs := []; strs := [] |})
+  /\ py2_magic 60717 = true /\ vge (cpy_cfg 60717) [2; 3] = false
+  /\ load (cpy_cfg 60717) (dumps2 (fun _ => []) false ex_code22) = Ok (ex_code22, {| inp := []; refs := []; strs := [] |})
+  /\ List.length (dumps2 (fun _ => []) false ex_code22) = 77%nat.
+Proof. repeat split; vm_compute; reflexivity. Qed.
+
+Lemma ex_code27_wf : code_wfv2 (cpy_cfg 62211) ex_code27.
+Proof.
+  unfold code_wfv2. replace (vge (cpy_cfg 62211) [2; 3]) with true by (vm_compute; reflexivity). unfold ex_code27.
+  repeat (first [apply wf2_code | apply wf2_tuple | apply wf2_bin | apply wf2_text | apply wf2_none | apply wf2_int | apply wf2_long
+                 | apply Forall_cons | apply Forall_nil | split]);
+    try reflexivity; try (unfold in_field, in32, in64; lia); try (unfold small_len; vm_compute; reflexivity); try (vm_compute; reflexivity).
 Qed.
